@@ -318,11 +318,15 @@ def r4_export_load(ctx):
     ctx.analysed(ex)
     R = Resolver(ex)
     raters = [st for st in walk_no_nested(ex, False)
-              if isinstance(st, ast.Assign) and norm(st.value) ==
-              "rater.IndentationRater.get_feature_funcs()"]
+              if isinstance(st, ast.Assign) and norm(st.value) in (
+                  "rater.IndentationRater.get_feature_funcs()",
+                  "rater.IndentationRater.get_feature_names()")]
+    by_name = bool(raters) and norm(raters[0].value).endswith(
+        "get_feature_names()")
     ctx.check(bool(raters), ex,
               "exported columns = all features in get_feature_names order",
-              "the exported feature list is not get_feature_funcs()")
+              "the exported feature list is not get_feature_funcs()/"
+              "get_feature_names() of all features")
     saves = [c for c in calls_in(ex) if call_name(c) == "np.savetxt"]
     ctx.check(len(saves) == 2, ex, "one file per feature plus the response",
               "unexpected number of savetxt calls")
@@ -338,7 +342,9 @@ def r4_export_load(ctx):
                 "enumerate" and norm(lp.iter.args[0]) == rname:
             ii = norm(lp.target.elts[0])
             second = lp.target.elts[1]
-            if isinstance(second, ast.Tuple):
+            if by_name:
+                name_expr = norm(second)
+            elif isinstance(second, ast.Tuple):
                 name_expr = norm(second.elts[0])
             else:
                 name_expr = f"{norm(second)}[0]"
